@@ -1,2 +1,63 @@
-(* C05 statements pinned here *)
-From A1 Require Import Uper.Reader.
+(* C05 — extension additions are forward/backward compatible.  Statements pinned here (step level:
+   the reader's handling of the transmitted presence range; the end-to-end statement over schema pairs
+   is confronted by the correspondence run, see checks/C05.py). *)
+From A1 Require Import Uper.Reader Uper.CompatProofs.
+Local Open Scope N_scope.
+
+(* forward (old data, new reader): an addition beyond the transmitted presence bits is absent *)
+Theorem C05_beyond_transmitted_is_absent_partial : forall r a b is_opt,
+  b <= a -> read_from_field_simple r (AllBitField a b) is_opt = Ok (f_ok (Some false), r).
+Proof. exact beyond_transmitted_is_absent. Qed.
+
+(* no extension bit: every addition is absent, whatever the local addition count *)
+Theorem C05_no_extension_is_absent_partial : forall r is_opt,
+  read_from_field_simple r ExtSeqEmpty is_opt = Ok (f_ok (Some false), r).
+Proof. reflexivity. Qed.
+
+(* backward (new data, old reader): with no unknown addition left the skip is the identity *)
+Theorem C05_skip_nothing_partial : forall m r b,
+  r_scope r = Some (AllBitField b b) -> skip_unknown_extension_additions m r = Ok r.
+Proof. exact skip_nothing. Qed.
+
+(* an absent unknown addition costs nothing: the walk moves to the next presence bit *)
+Theorem C05_skip_absent_step_partial : forall f m r p stop,
+  p < stop -> r_bit_at (r_src r) p = Ok false ->
+  skip_unknown_loop (S f) m r p stop = skip_unknown_loop f m r (p + 1) stop.
+Proof. exact skip_absent_step. Qed.
+
+(* a present unknown addition is skipped by exactly its open-type length *)
+Theorem C05_skip_present_step_partial : forall f m r p stop len r1,
+  p < stop -> r_bit_at (r_src r) p = Ok true ->
+  r_get r (r_length_determinant m None None) = Ok (len, r1) ->
+  len * 8 < two64 -> s_pos (r_src r1) + len * 8 < two64 ->
+  s_pos (r_src r1) + len * 8 <= s_len (r_src r1) ->
+  skip_unknown_loop (S f) m r p stop =
+    skip_unknown_loop f m (r_set_src r1 (src_set_pos (r_src r1) (s_pos (r_src r1) + len * 8))) (p + 1) stop.
+Proof. exact skip_present_step. Qed.
+
+Example C05_nonvacuous :
+  (* V2 = SEQUENCE { a BOOLEAN, ..., b BOOLEAN OPTIONAL, c OCTET STRING OPTIONAL } written, V1 = without c read *)
+  let v2 := TSeq [(FReq, TBool); (FOpt, TBool); (FOpt, TOctets None None false)] 0 3 (Some 0) in
+  let v1 := TSeq [(FReq, TBool); (FOpt, TBool)] 0 2 (Some 0) in
+  let sentinel := TInt U8 (Some 0%Z) (Some 255%Z) false in
+  match write_ty dev_mode v2 (VSeq [Some (VBool true); Some (VBool false); Some (VOctets [1; 2; 3])]) w_empty with
+  | Ok w =>
+      match write_ty dev_mode sentinel (VInt 165) w with
+      | Ok w' =>
+          let b := w_bits w' in
+          match read_ty dev_mode v1 (r_of_src (src_of_bytes (bytes_of_bits b) (N.of_nat (length b)))) with
+          | Ok (v, r) => v = VSeq [Some (VBool true); Some (VBool false)] /\
+                         exists r', read_ty dev_mode sentinel r = Ok (VInt 165, r')
+          | _ => False
+          end
+      | _ => False
+      end
+  | _ => False
+  end.
+Proof. vm_compute. split; [reflexivity|eexists; reflexivity]. Qed.
+
+Print Assumptions C05_beyond_transmitted_is_absent_partial.
+Print Assumptions C05_no_extension_is_absent_partial.
+Print Assumptions C05_skip_nothing_partial.
+Print Assumptions C05_skip_absent_step_partial.
+Print Assumptions C05_skip_present_step_partial.
